@@ -28,7 +28,7 @@ Lemma resolve_unprefixed ns name k : ns_lookup ns None = None ->
   | None => Err (XErrNotFoundFunction name)
   end.
 Proof.
-  intros H. unfold resolve_fn, expanded_name. rewrite bind_ok, H. unfold find_func, func_table.
+  intros _. unfold resolve_fn, fn_key. rewrite bind_ok. unfold find_func, func_table.
   rewrite table_arity_lookup. destruct (lookup_arity name arity_table) as [[mn mx]|]; [|reflexivity].
   rewrite arity_test. destruct (arity_in k mn mx); reflexivity.
 Qed.
